@@ -444,6 +444,7 @@ class HistoryRunner:
         self.rejected: list = []
         self.rejected_good: list = []
         self.tolerate_rejected_good = False
+        self.real_pool = False  # multi-writer sessions on real processes
         self.accepted_bad: list = []
         self.session_no = -1
         self.multi_results: list = []
@@ -536,8 +537,9 @@ class HistoryRunner:
                     custom_arguments=args,
                     custom_kwarguments=kwargs,
                     consistency_check=False,
-                    single_process=bool(ses.get("single_process")) or
-                    self.pool_factory is None,
+                    single_process=(bool(ses.get("single_process")) or
+                                    self.pool_factory is None) and
+                    not self.real_pool,
                 )
             finally:
                 dw.Pool = saved_pool
